@@ -347,8 +347,23 @@ def run(ctx: Any, prog: Program) -> None:
                               'a prefix containing `..` (or an absolute one) moves the new root outside the constrained directory', func=q4, text=f'{q4}: RawFileSystem root not derived from another root')
     ctx.check('C18.S4', True, fs, fs.tree, f'{n_ctor} RawFileSystem constructions in filesys.py examined', func='<module>', text='RawFileSystem constructions examined')
 
+    # ---- S3 (the switch): the constraint the caller asked for is the constraint that is stored -------------------------------------------------
+    # RawFileSystem(path, constrain_path=True) promises RootEscapeError for every name outside the root.  __init__ stores the flag as given:
+    # switching it off for "roots that have nothing above them" (os.path.ismount is true for /proc, a second disk, any bind mount) removes
+    # the check for directories that do have something above them.
+    fsm_ = prog.module('filesys')
+    init_ = fsm_.methods('RawFileSystem').get('__init__')
+    if init_ is None:
+        raise AnalysisError('anchor vanished: RawFileSystem.__init__')
+    st_ = [a for a in ast.walk(init_) if isinstance(a, (ast.Assign, ast.AnnAssign)) for t in (a.targets if isinstance(a, ast.Assign) else [a.target]) if dotted(t) == 'self.constrain_path']
+    ctx.shape('C18.S3', len(st_) >= 1, fsm_, init_, 'RawFileSystem.__init__ stores constrain_path', func='RawFileSystem.__init__', text='constrain_path stored as given')
+    for a_ in st_:
+        ctx.check('C18.S3', isinstance(a_.value, ast.Name) and a_.value.id == 'constrain_path', fsm_, a_, f'RawFileSystem.__init__ stores `{U(a_.value)[:60]}` as the constraint instead of the caller\'s `constrain_path`: for some '
+                  'roots a filesystem created with constrain_path=True resolves `../x` and absolute names without RootEscapeError', func='RawFileSystem.__init__', text='constrain_path stored as given')
+
 
 MUTANTS = [
+    {'id': 'constraint_dropped_for_mount_points', 'file': 'filesys.py', 'find': "        self.constrain_path = constrain_path\n", 'replace': "        self.constrain_path = constrain_path and not os.path.ismount(self.path)\n", 'expect': 'C18.S3', 'note': 'round 13'},
     {'id': 'unify_path_fast_path_skips_the_test', 'file': 'packlist.py', 'find': "    path = os.path.normpath(path).casefold().replace('\\\\', '/')\n    if '../' in path:", 'replace': "    if path.islower() and '\\\\' not in path:\n        return path\n    path = os.path.normpath(path).casefold().replace('\\\\', '/')\n    if '../' in path:", 'expect': 'C18.S5', 'note': 'round 12'},
     {'id': 'absolute_names_checked_unnormalised', 'file': 'filesys.py', 'find': "        abs_path = os.path.abspath(os.path.join(self.path, path))\n", 'replace': "        if os.path.isabs(path):\n            abs_path = path\n        else:\n            abs_path = os.path.normpath(os.path.join(self.path, path))\n", 'expect': 'C18.S3'},
     {'id': 'chain_mounts_subfolder_as_new_root', 'file': 'filesys.py', 'find': "        if priority:\n            self.systems.insert(0, (sys, prefix))", 'replace': "        if prefix and isinstance(sys, RawFileSystem):\n            sys = RawFileSystem(os.path.join(sys.path, prefix), sys.constrain_path)\n            prefix = ''\n        if priority:\n            self.systems.insert(0, (sys, prefix))", 'expect': 'C18.S4'},
